@@ -683,6 +683,9 @@ class Opa:
             return out
         if val is None and d[0] == 'discr':
             val = seeds.get('discr', {}).get(t_str(d[1]))
+            if val is None and seeds.get('discr_method') and d[1][0] == 'call':
+                # every observation made through this method reports the same variant (e.g. has_more() = Yes for the whole run)
+                val = seeds['discr_method'].get(strip_generics(d[1][1]).split('::')[-1])
         if val is None:
             f = seeds.get('atoms')
             if f is not None:
